@@ -540,6 +540,9 @@ func mkOperation(i int, p callPlan, out *callResult) *runtime.ClientOperation {
 	op := &runtime.ClientOperation{ID: "op" + p.token, Method: "POST", PathPattern: "/items/{id}", Schemes: offeredSchemes,
 		ProducesMediaTypes: []string{"application/json", "text/plain"},
 		Params: runtime.ClientRequestWriterFunc(func(req runtime.ClientRequest, _ strfmt.Registry) error {
+			// no request timeout: the default one is 30 s of real time, and K2 has no simulated clock — on a machine that
+			// stalls (memory pressure, a paused VM) it fired inside runs and emptied response bodies
+			_ = req.SetTimeout(0)
 			_ = req.SetHeaderParam("X-Idx", strconv.Itoa(i))
 			_ = req.SetHeaderParam("X-Token", p.token)
 			_ = req.SetPathParam("id", p.path)
